@@ -7,7 +7,7 @@ import re
 import symex
 import terms as T
 from dispatch import opcode_matches
-from facts import strip, walk
+from facts import strip, walk, callee_path
 
 
 def find_parent_block(root, target):
@@ -81,6 +81,8 @@ class LoopModel:
     def run(self, v, st=None, upto_match_only=False, bind=None, keep=None, fields=None):
         self._fields = fields or {}
         self.ev.insn_override = dict(self._fields)
+        self.ev.insn_override["opc@current"] = T.K(8, v)      # statements before the dispatch see the concrete opcode too
+        self.ev._cur_insn_idx = None
         """evaluate the loop body with the opcode forced to v -> list of (value, St)"""
         ev = self.ev
         st = st or symex.St()
@@ -212,3 +214,93 @@ def loop_counter_name(facts, fn_path):
                                     return side["name"], side["id"]
                     break
     return None, None
+
+
+
+def counting_loop(F, ev, path, st0):
+    """the single counting loop of function `path`, in either spelling (`for i in a..b { .. }` or
+    `let mut i = a; while i < b { ..; i += 1 }`): -> (info, None) or (None, reason).
+    info = {start, bound, I (the symbol standing for the counter in one iteration), states (after one iteration from
+    st0 with the counter = I), step_ok, pre (state before the loop, lets evaluated)}"""
+    import symex
+    fn = F.fns.get(path)
+    if not fn or not fn.get("thir"):
+        return None, "missing"
+    body = fn["thir"]["body"]
+    loops = [n for n in walk(body) if n.get("k") == "loop"]
+    if len(loops) != 1:
+        return None, "%d loops" % len(loops)
+    loop = loops[0]
+    owner = ev.owner_of(path)
+    # statements before the loop, in every enclosing block (bindings such as `let mut i = 0;`)
+    st = st0
+
+    def pre(block):
+        nonlocal st
+        b = strip(block)
+        if b.get("k") != "block":
+            return
+        for stmt in b["stmts"]:
+            inner = stmt.get("e") or stmt.get("init") or {}
+            if any(x is loop for x in walk(inner)):
+                pre(inner)
+                return
+            if stmt["k"] == "let":
+                fake = {"k": "block", "stmts": [stmt], "tail": None, "ty": "()"}
+                nxt = [s2 for _v, s2 in ev.ev(fake, st, path) if s2.exit is None and s2.feasible]
+                if len(nxt) == 1:
+                    st = nxt[0]
+        if b.get("tail") is not None and any(x is loop for x in walk(b["tail"])):
+            pre(b["tail"])
+    pre(body)
+    I = ("v", "I", 64)
+    lb = strip(loop["body"])
+    if lb.get("k") == "block" and not lb["stmts"] and lb.get("tail") is not None:
+        lb = strip(lb["tail"])
+    if lb.get("k") == "if":
+        # while-form: the counter is the local that the guard reads and the body increments
+        then = lb.get("t") or lb.get("then")
+        incs = [strip(x["l"]) for x in walk(then) if x.get("k") == "assignop" and x.get("op") in ("AddAssign", "Add")]
+        cids = {x["id"] for x in incs if x.get("k") in ("var", "upvar")}
+        gids = {x["id"] for x in walk(lb["c"]) if x.get("k") in ("var", "upvar")}
+        cand = sorted(cids & gids)
+        if len(cand) != 1:
+            return None, "loop counter not identified (%d candidates)" % len(cand)
+        key = (owner, cand[0])
+        start = st.env.get(key)
+        s1 = st.set(key, I)
+        gs = ev.ev_cond(lb["c"], s1, path)
+        if len(gs) != 1 or not (isinstance(gs[0][0], tuple) and gs[0][0][0] == "cmp" and gs[0][0][1] == "ult" and gs[0][0][3] == I):
+            return None, "loop guard is not `counter < bound`"
+        bound = gs[0][0][4]
+        outs = [(v, s2) for v, s2 in ev.ev(then, s1, path) if s2.feasible]
+        step_ok = all(s2.env.get(key) == T.op("add", 64, I, T.K(64, 1)) for _v, s2 in outs if s2.exit is None or s2.exit[0] == "continue")
+        return {"start": start, "bound": bound, "I": I, "states": [s2 for _v, s2 in outs], "step_ok": step_ok, "pre": st}, None
+    # for-form
+    rng = [n for n in walk(body) if n.get("k") == "call" and (callee_path(n) or "").endswith("into_iter") and any(x is loop for x in walk(n)) is False]
+    rng = [n for n in rng if any(x is loop for x in walk(_parent_match(body, n) or {}))]
+    if len(rng) != 1:
+        return None, "loop is neither `while counter < bound` nor a single `for` over a range"
+    vals = ev.ev(rng[0]["args"][0], st, path)
+    if not (len(vals) == 1 and isinstance(vals[0][0], tuple) and vals[0][0][0] == "struct" and vals[0][0][1].endswith("ops::Range")):
+        return None, "the `for` does not iterate over a plain range a..b"
+    start, bound = symex.sfield(vals[0][0], "start"), symex.sfield(vals[0][0], "end")
+    arms = [a for n in walk(loop["body"]) if n.get("k") == "match" for a in n["arms"] if a["pat"].get("k") == "variant" and a["pat"].get("variant") == "Some"]
+    if len(arms) != 1:
+        return None, "loop arm not found"
+    bids = [x["id"] for x in walk(arms[0]["pat"]) if x.get("k") == "bind"]
+    s1 = vals[0][1]
+    if len(bids) == 1:
+        s1 = s1.set((owner, bids[0]), I)
+    elif bids:
+        return None, "loop pattern binds several names"
+    outs = [(v, s2) for v, s2 in ev.ev(arms[0]["body"], s1, path) if s2.feasible]
+    return {"start": start, "bound": bound, "I": I, "states": [s2 for _v, s2 in outs], "step_ok": True, "pre": st}, None
+
+
+def _parent_match(body, call):
+    """the `match into_iter(..) { iter => loop {..} }` node of a desugared `for` whose scrutinee is `call`"""
+    for n in walk(body):
+        if n.get("k") == "match" and any(x is call for x in walk(n.get("scrut") or {})):
+            return n
+    return None
